@@ -13,6 +13,8 @@
     app/options.go:40-66, configure/configure.go:28-34   SetConfig / SetConfigLoader / AddConfigLoader / SetConfigure,
                                      Configure.AddLoaders / SetLoaders
     app/app.go:27-35, configure/configure.go:21-26       NewApp → configure.Default() = [ArgsLoader(os.Args)]
+    app/global_option.go:3-7, app/app.go:65-68           Settings appends to the package-level list; Run applies the
+                                     call's options, then ALL registered ones, on every call (`runApp`, `runProc`)
 
   A Go map is an association list with unique keys (`Cfg.wf`); which entry comes first never matters
   (lookups are by key, output is sorted).
@@ -283,6 +285,11 @@ inductive Opt
 /-- loader.NewFileLoader: Priority, Order() = 0 (configure/loader/file.go:10-15) -/
 def fileLoader (id : Nat) (out : Out) : Loader := ⟨id, .prio 0, out⟩
 
+/-- a FileLoader whose path names a pipe (a FIFO, /dev/stdin, a shell process substitution): LoadConfig is os.ReadFile
+    (file.go:21-27), which reads to the END OF THE INPUT whatever size the file system reports for the path (0 for a pipe),
+    so the loader's output is what the pipe delivers: the FileLoader with that output -/
+def pipeLoader (id : Nat) (delivered : Out) : Loader := fileLoader id delivered
+
 def applyStep (cur : List Loader) : Opt → List Loader
   | .setLoaders ls => ls
   | .addLoaders ls => cur ++ ls
@@ -344,6 +351,35 @@ def initOnce (s : St) : Except Bool St :=
 
 /-- a batch of options / calls followed by one Initialize (the first batch of an App is `Run(opts…)`) -/
 def runPhase (s : St) (opts : List Opt) : Except Bool St := initOnce (opts.foldl stepOpt s)
+
+/-! ### several Apps in ONE process; options registered through `app.Settings` (app/global_option.go:3-7, app/app.go:65-68)
+
+  `globalOptions` is a package-level list: `Settings(ops…)` appends to it and nothing ever removes from it.  `Run` walks
+  `append(ops, globalOptions...)`: the options of the call first, then ALL registered ones — on every call, for every
+  App.  The list is the only state that outlives an App: every `NewApp()` has its own Configure and binder. -/
+
+/-- one step of a process: `app.Settings(ops…)`, or `app.NewApp().Run(ops…)` -/
+inductive ProcStep
+  | settings (ops : List Opt)
+  | newApp (ops : List Opt)
+  deriving Repr
+
+/-- `app.NewApp().Run(ops…)` in a process whose registered options are `globals` (app.go:65-68): a new App, the options
+    of the call, then the registered ones, then Initialize -/
+def runApp (globals ops : List Opt) : Except Bool St := runPhase St.app (ops ++ globals)
+
+/-- a process history: the result of every App, in the order in which they were started (`globals` = what is registered
+    so far) -/
+def runProc : List Opt → List ProcStep → List (Except Bool St)
+  | _, [] => []
+  | g, .settings ops :: rest => runProc (g ++ ops) rest
+  | g, .newApp ops :: rest => runApp g ops :: runProc g rest
+
+/-- everything registered by the `Settings` calls of a history, in order -/
+def registeredBy : List ProcStep → List Opt
+  | [] => []
+  | .settings ops :: rest => ops ++ registeredBy rest
+  | .newApp _ :: rest => registeredBy rest
 
 /-! ### rendering helpers shared by driver and examples -/
 
